@@ -179,7 +179,7 @@ func (s *sim) sgProject() (trace.M, *universe) {
 				memOv = int(q.Value() >> 20)
 			}
 			offs = append(offs, trace.M{"zone": o.Zone(), "ct": o.CapacityType(), "price": price5(o.Price), "available": o.Available,
-				"rid": rid, "rcap": o.ReservationCapacity, "cpuOv": cpuOv, "memOv": memOv})
+				"rid": rid, "rcap": o.ReservationCapacity, "cpuOv": cpuOv, "memOv": memOv, "podsOv": 0, "ohCpu": 0, "ohMem": 0})
 		}
 		ov := it.Overhead.Total()
 		types = append(types, trace.M{"name": it.Name, "cpu": int(it.Capacity.Cpu().MilliValue()), "mem": int(it.Capacity.Memory().Value() >> 20),
